@@ -152,6 +152,7 @@ def gen_history(rng, tier):
     return ops
 
 
+@driver.hang_is_failure(lambda why: (why, set()))
 def run_history(ops, scratch):
     """Returns '' or the description of the first violated invariant, plus class labels."""
     d = os.path.join(scratch, 'work')
